@@ -23,13 +23,15 @@ func main() {
 	from := fs.Int("from", 0, "first behaviour (inclusive)")
 	to := fs.Int("to", -1, "last behaviour (exclusive)")
 	prom := fs.Bool("prom", false, "second pass: real Prometheus collectors behind the recorder")
+	validator := fs.String("validator", "loopback", "loopback: loopback targets allowed in addition to RequirePublicIP; default: the handler's own RequirePublicIP")
+	via := fs.String("listener", "alternate", "raw: net.ListenUDP; manager: service.NewListenerManager().ListenPacket; alternate: by behaviour index")
 	cas := fs.String("case", "", "c18 scenario family")
 	nclients := fs.Int("clients", 24, "conc: concurrent clients")
 	rounds := fs.Int("rounds", 3, "conc: rounds")
 	fs.Parse(os.Args[2:])
 	switch mode {
 	case "replay":
-		replayMain(*in, *out, *sum, *seed, *from, *to, *prom)
+		replayMain(*in, *out, *sum, *seed, *from, *to, runOpts{prom: *prom, validator: *validator}, *via)
 	case "c18":
 		c18Main(*cas, *seed)
 	case "conc":
@@ -41,7 +43,7 @@ func main() {
 	}
 }
 
-func replayMain(in, out, sum string, seed int64, from, to int, prom bool) {
+func replayMain(in, out, sum string, seed int64, from, to int, o runOpts, via string) {
 	var behs [][]step
 	hx.ReadJSON(in, &behs)
 	if to < 0 || to > len(behs) {
@@ -58,7 +60,8 @@ func replayMain(in, out, sum string, seed int64, from, to int, prom bool) {
 		baseG, _ := repoGoroutines()
 		baseFd := fdCount()
 		tr.Emit(map[string]any{"ev": "Reset", "beh": bi})
-		r := newRun(w, tr, brng, prom)
+		o.viaManager = via == "manager" || (via == "alternate" && bi%2 == 0)
+		r := newRunOpts(w, tr, brng, o)
 		closed := false
 		for _, st := range behs[bi] {
 			switch st.A {
@@ -78,6 +81,7 @@ func replayMain(in, out, sum string, seed int64, from, to int, prom bool) {
 			}
 		}
 		ei := r.doShutdown(baseG, baseFd)
+		ei.ViaManager, ei.Validator = o.viaManager, o.validator
 		ends = append(ends, ei)
 	}
 	if sum != "" {
